@@ -889,6 +889,20 @@ class SymBytes:
     def __repr__(self):
         return "SymBytes(%d)" % len(self.items)
 
+    def split(self, sep=None, maxsplit=-1):
+        if not isinstance(sep, (bytes, bytearray)) or len(sep) != 1:
+            raise Unsupported("bytes.split with this separator")
+        out, cur, n = [], [], 0
+        for b in self.items:
+            if (maxsplit < 0 or n < maxsplit) and bool(b == sep[0]):    # forks on a proxy byte
+                out.append(SymBytes(cur))
+                cur = []
+                n += 1
+            else:
+                cur.append(b)
+        out.append(SymBytes(cur))
+        return out
+
     @property
     def nbytes(self):
         return len(self.items)
